@@ -425,6 +425,11 @@ def main():
         feature_sets = feature_sets + [("hooks", [])]       # the only build with the cfg-guarded hook module
     njobs = 16 if tier == "thorough" else 8
     total = cfg[tier]
+    if tier == "thorough" and not cfg.get("exhaustive"):
+        # the generators grew long texts (deep-count, limit, stress, level vectors up to 400 entries …) on which the Lean
+        # Spec is slow; the random part of the thorough tier is scaled so that all twenty checks take about an hour
+        # (VERIF_THOROUGH_SCALE=1 restores the full counts: several hours)
+        total = max(1, int(total * float(os.environ.get("VERIF_THOROUGH_SCALE", "0.2"))))
     for tag, extra in feature_sets:
         hb, out = build_harness(extra, log, tag)
         if hb is None:
